@@ -31,12 +31,15 @@ def generic_ops(d):
     """class-independent API calls on a real diagram; every diagram they construct is seen by the hook"""
     out = []
 
+    from harness.machine import time_limit, CallTimeout, CALL_LIMIT
+
     def attempt(fn):
         try:
-            r = fn()
+            with time_limit(CALL_LIMIT):
+                r = fn()
             if hasattr(r, "offsets"):
                 out.append(r)
-        except Exception:
+        except (Exception, CallTimeout):
             pass
     attempt(lambda: d[::-1])
     attempt(lambda: d.dagger())
